@@ -53,6 +53,10 @@ Next ==
                    \E f \in UnOps, mode \in Modes :
                       /\ ~(f = "apply" /\ mode = "incr")
                       /\ DoAll(Prog("Unary", f, s, "TS", la, "C", mode, 0))
+              [] Family = "reduce4" ->       \* rank 4 with a middle axis longer than 2 (the block-stepping kernels)
+                   /\ la = "C"
+                   /\ \E s4 \in {<<2, 2, 3, 2>>, <<1, 2, 3, 2>>, <<2, 3, 2, 2>>} : \E f \in {"add", "max", "min"}, a \in 0..3 :
+                         DoAll(<<Op("New", 0, <<s4, "C", "">>), Op("Reduce", 1, <<f, <<a>>>>)>>)
               [] Family = "reduce" ->
                    LET ra == Recipe(la, s, 1, "")
                    IN \/ \E f \in {"add", "max", "min"}, ax \in {<<>>} \cup {<<a>> : a \in 0..(Len(s) - 1)} \cup (IF Len(s) >= 2 THEN {<<1, 0>>} ELSE {}) :
